@@ -95,7 +95,9 @@ static bool run_row(const Row &r, const Case &c, uint64_t junk, std::vector<uint
     // every 8th case (second run of the row only: never the first call of a routine) the static storage of the process is checksummed
     // right before and right after the call: a routine must not write anywhere but its designated outputs
     static thread_local uint64_t g_static_probe = 0;
-    const bool probe = !SAN && probe_statics && ((++g_static_probe & 7) == 0); // (not in sanitizer builds: their runtime keeps bookkeeping in the executable's own data segment)
+    static thread_local std::vector<uint32_t> row_calls(NROWS, 0);
+    const uint32_t ncalls = row_calls[&r - ROWS]++;   // the first call of a routine is never measured (one-time initialisation is legitimate)
+    const bool probe = !SAN && probe_statics && ncalls >= 1 && ((++g_static_probe & 7) == 0); // (not in sanitizer builds: their runtime keeps bookkeeping in the executable's own data segment)
     uint64_t cs0 = probe ? statics::checksum() : 0;
     r.call(*t);
     if (probe && statics::checksum() != cs0) { why = "wrote to static storage of the process (a hidden buffer or memo): memory other than the designated output positions changed during the call"; return false; }
@@ -135,9 +137,9 @@ static bool body_row(const Case &c, Ctx &ctx)
     for (int k = 0; k < r.L; k++) if (c.v[P_AV + k] >= PR || c.v[P_BV + k] >= PR) { nt = true; ctx.cls("shape:non-canonical-operand"); break; }
     ctx.nontrivial = nt;
     std::vector<uint64_t> o1, o2; std::string why;
-    if (!run_row(r, c, c.v[P_JUNK], o1, why)) return ctx.fail(std::string(r.decl) + " [A=" + KN[r.A] + " B=" + KN[r.B] + " -> " + KN[r.C] + "] sa=" + std::to_string(c.v[P_SA]) + " sb=" + std::to_string(c.v[P_SB]) + " sc=" + std::to_string(c.v[P_SC]) + ": " + why);
+    if (!run_row(r, c, c.v[P_JUNK], o1, why, true)) return ctx.fail(std::string(r.decl) + " [A=" + KN[r.A] + " B=" + KN[r.B] + " -> " + KN[r.C] + "] sa=" + std::to_string(c.v[P_SA]) + " sb=" + std::to_string(c.v[P_SB]) + " sc=" + std::to_string(c.v[P_SC]) + ": " + why);
     // metamorphic: different junk in the non-designated input cells must not change the result
-    if (!run_row(r, c, ~c.v[P_JUNK], o2, why, true)) return ctx.fail(std::string(r.decl) + ": " + why);
+    if (!run_row(r, c, ~c.v[P_JUNK], o2, why)) return ctx.fail(std::string(r.decl) + ": " + why);
     if (o1 != o2) return ctx.fail(std::string(r.decl) + ": result depends on input cells that its strides do not designate");
     return true;
 }
